@@ -23,18 +23,31 @@ use tensor_store::{ScalarValue, SparseVector, TensorStore, TensorValue};
 enum Tx {
     Put(u64, Vec<u8>),
     Del(u64),
+    /// every other transaction kind: (kind, a, b)
+    Other(u64, u64, u64),
 }
 impl Tx {
     fn coq(&self) -> String {
         match self {
             Tx::Put(k, v) => format!("TPut {k} {}", bytes(v)),
             Tx::Del(k) => format!("TDel {k}"),
+            Tx::Other(x, a, b) => format!("TOther {x} {a} {b}"),
         }
     }
     fn real(&self) -> Transaction {
         match self {
             Tx::Put(k, v) => Transaction::Put { key: format!("key{k}"), data: v.clone() },
             Tx::Del(k) => Transaction::Delete { key: format!("key{k}") },
+            Tx::Other(x, a, b) => match x {
+                0 => Transaction::Embed { key: format!("e{a}"), vector: vec![*b as f32, 1.0] },
+                1 => Transaction::NodeCreate { key: format!("n{a}"), label: format!("L{b}") },
+                2 => Transaction::NodeDelete { key: format!("n{a}") },
+                3 => Transaction::EdgeCreate { from: format!("n{a}"), to: format!("n{b}"), edge_type: "T".into() },
+                4 => Transaction::TableInsert { table: format!("t{a}"), values: vec![*b as u8] },
+                5 => Transaction::TableUpdate { table: format!("t{a}"), row_id: *b, values: vec![*b as u8, 1] },
+                6 => Transaction::TableDelete { table: format!("t{a}"), row_id: *b },
+                _ => Transaction::CompareAndSwap { key: format!("cas{a}"), expected_data: vec![], new_data: vec![*b as u8] },
+            },
         }
     }
     fn of(t: &Transaction) -> Option<Tx> {
@@ -226,6 +239,7 @@ enum Op {
     Put(u64, u64, Vec<u8>),
     Del(u64, u64),
     Commit(u64, u64),
+    CommitU(u64, u64),
     Rollback(u64),
     Raw(Raw),
 }
@@ -236,6 +250,7 @@ impl Op {
             Op::Put(w, k, v) => format!("OPut {w} {k} {}", bytes(v)),
             Op::Del(w, k) => format!("ODel {w} {k}"),
             Op::Commit(w, ts) => format!("OCommit {w} {ts}"),
+            Op::CommitU(w, ts) => format!("OCommitU {w} {ts}"),
             Op::Rollback(w) => format!("ORollback {w}"),
             Op::Raw(d) => format!("ORaw {}", d.coq()),
         }
@@ -265,6 +280,7 @@ enum Plan {
     Put(usize, u64, Vec<u8>),
     Del(usize, u64),
     Commit(usize),
+    CommitU(usize),
     Rollback(usize),
     Raw(Raw, i64), // ts = tip ts + delta
 }
@@ -305,6 +321,23 @@ fn run_plan(c: &Ctx, kk: u64, plan: Vec<Plan>) -> SeqRun {
                     0
                 };
                 (Op::Commit(w as u64, ts), code(&r))
+            }
+            Plan::CommitU(w) => {
+                if w >= wss.len() {
+                    continue;
+                }
+                // the proposer key leaves the registry for the duration of this one call: above height 1 the
+                // append then fails ("unknown proposer") AFTER the operations were applied to the store
+                let h0 = c.chain.height();
+                let _ = c.chain.validator_registry().remove(&c.me.node_id());
+                let r = c.chain.commit(&wss[w]);
+                c.chain.register_validator(&c.me);
+                let ts = if r.is_ok() && c.chain.height() > h0 {
+                    c.block(c.chain.height()).map(|b| b.header.timestamp).unwrap_or(0)
+                } else {
+                    0
+                };
+                (Op::CommitU(w as u64, ts), code(&r))
             }
             Plan::Rollback(w) => {
                 if w >= wss.len() {
@@ -379,9 +412,12 @@ fn gen_plan(r: &mut Rng, kk: u64, len: usize, dist: &mut Dist, allow_raw: bool, 
         } else if k < 58 {
             dist.hit("seq.delete");
             Plan::Del(w, r.below(kk))
-        } else if k < 82 {
+        } else if k < 76 {
             dist.hit("seq.commit");
             Plan::Commit(w)
+        } else if k < 82 {
+            dist.hit("seq.commit_unregistered");
+            Plan::CommitU(w)
         } else if k < 90 && allow_rollback {
             dist.hit("seq.rollback");
             Plan::Rollback(w)
@@ -799,7 +835,7 @@ fn main() {
     let mut seq = CaseWriter::new(&args.out, "seq");
     let mut layout = CaseWriter::new(&args.out, "layout");
     let emit_seq = |c: &Ctx, kk: u64, run: &SeqRun, human: &str, seq: &mut CaseWriter| {
-        let commits = run.ops.iter().zip(&run.obs).filter(|(o, b)| matches!(o, Op::Commit(..)) && b.res == 0).count();
+        let commits = run.ops.iter().zip(&run.obs).filter(|(o, b)| matches!(o, Op::Commit(..) | Op::CommitU(..)) && b.res == 0).count();
         seq.push(&seq_term(c, kk, c.gts(), run), &format!("{human} ops={:?}", run.ops), commits >= 1 && run.ops.len() >= 3);
     };
 
@@ -821,6 +857,28 @@ fn main() {
             let run = run_plan(&c, 2, vec![Plan::Raw(d, 0)]);
             emit_seq(&c, 2, &run, "corpus first-block-unsigned: append_block at height 1 without a valid signature", &mut seq);
         }
+        // a commit that FAILS at append after other workspaces committed since its begin (seeded C16-2 shape):
+        // the failure must leave chain and store exactly as they were, the others' blocks and writes included
+        let c = mk(next_seed(), 8, 0, false);
+        let run = run_plan(
+            &c,
+            3,
+            vec![
+                Plan::Begin,
+                Plan::Put(0, 0, vec![1]),
+                Plan::Begin,
+                Plan::Put(1, 1, vec![2]),
+                Plan::Commit(1),
+                Plan::Begin,
+                Plan::Put(2, 2, vec![3]),
+                Plan::Commit(2),
+                Plan::CommitU(0),
+                Plan::Begin,
+                Plan::Put(3, 0, vec![4]),
+                Plan::Commit(3),
+            ],
+        );
+        emit_seq(&c, 3, &run, "corpus failed commit (proposer unregistered) of a workspace begun before two other commits", &mut seq);
         // timestamp regression through append_block (fixed d4e50a08)
         let c = mk(next_seed(), 8, 0, false);
         let run = run_plan(&c, 2, vec![Plan::Begin, Plan::Put(0, 0, vec![1]), Plan::Commit(0), Plan::Raw(Raw::good(0, vec![Tx::Put(1, vec![2])]), -5), Plan::Raw(Raw::good(0, vec![]), 0)]);
@@ -1173,12 +1231,33 @@ fn main() {
         } else {
             let reps = [mk_replica(&image, &c.me, false), mk_replica(&image, &c.me, false)];
             let oracle = TensorStore::new(); // harness-side mirror of the accepted state
+            let mut seen: Vec<Tx> = vec![];
             let mut rs: [Vec<(u64, [u8; 32])>; 2] = [vec![], vec![]];
             let mut ts = gts;
             let nb = nb + 2;
-            for _ in 0..nb {
+            for bi in 0..nb {
                 let ntx = rng.range(0, 3) as usize;
-                let l = gen_txs(&mut rng, kk, ntx, &mut uniq);
+                let mut l = gen_txs(&mut rng, kk, ntx, &mut uniq);
+                // every transaction kind, and repeats of earlier transactions (identical payloads included)
+                for _ in 0..rng.below(3) {
+                    let t = if !seen.is_empty() && rng.chance(1, 2) {
+                        seen[rng.below(seen.len() as u64) as usize].clone()
+                    } else {
+                        Tx::Other(rng.below(8), rng.below(3), rng.below(3))
+                    };
+                    let pos = rng.below(l.len() as u64 + 1) as usize;
+                    l.insert(pos, t);
+                }
+                if ri == 1 && bi < 3 {
+                    // corpus: the same TableInsert (identical payload) in two blocks, then twice in one block
+                    l = [vec![Tx::Other(4, 1, 0)], vec![Tx::Other(4, 1, 0), Tx::Put(0, vec![9])], vec![Tx::Other(4, 2, 1), Tx::Other(4, 2, 1)]][bi].clone();
+                }
+                seen.extend(l.iter().cloned());
+                for t in &l {
+                    if let Tx::Other(k, _, _) = t {
+                        dist.hit(&format!("replay.txkind.{k}"));
+                    }
+                }
                 let scratch = TensorStore::new();
                 scratch.restore_from_bytes(&oracle.snapshot_bytes().unwrap()).unwrap();
                 for t in &l {
@@ -1245,6 +1324,18 @@ fn main() {
                 outs.push((rs[i].clone(), rdump(&rep.store, kk)));
             }
         }
+        // direct replay: every offered transaction list applied, in order, to two fresh stores
+        let direct: Vec<[u8; 32]> = (0..2)
+            .map(|_| {
+                let st = TensorStore::new();
+                for (l, _, _) in &offered_desc {
+                    for t in l {
+                        let _ = tensor_chain::transaction::apply_transaction_to_store(&st, &t.real());
+                    }
+                }
+                tensor_chain::compute_state_root(&st).unwrap()
+            })
+            .collect();
         // root ids: distinct roots numbered in order of first appearance over both replicas
         let mut ids: HashMap<[u8; 32], u64> = HashMap::new();
         let mut idof = |r: &[u8; 32]| {
@@ -1260,7 +1351,7 @@ fn main() {
             }
         }
         let t = format!(
-            "({}, ({}, {}, {}, {}, {}, {}, {}, {}))",
+            "({}, ({}, {}, {}, {}, {}, {}, {}, {}, ({}, {})))",
             c.extra,
             kk,
             gts,
@@ -1269,7 +1360,9 @@ fn main() {
             rr[0],
             rr[1],
             dump_coq(&outs[0].1),
-            dump_coq(&outs[1].1)
+            dump_coq(&outs[1].1),
+            idof(&direct[0]),
+            idof(&direct[1])
         );
         replay.push(
             &t,
